@@ -116,20 +116,37 @@ def mk_factor(kind, D, R, vi, seed=None, tag=()):
 COND_KINDS = ["full", "diag", "identity", "identity_diag", "nncontrol"]
 
 
-def mk_cond(kind, M, b, Sy, u_rows=None):
+CTORS = ["Sigma", "Lambda", "all", "b_none"]
+
+
+def _noise_kw(Sy, ctor):
+    """Constructor keyword variants for the redundant noise parametrisation."""
+    if ctor in ("Sigma", "b_none"):
+        return dict(Sigma=J(Sy))
+    if ctor == "Lambda":
+        return dict(Lambda=J(np.linalg.inv(Sy)))
+    if ctor == "all":
+        return dict(Sigma=J(Sy), Lambda=J(np.linalg.inv(Sy)), ln_det_Sigma=J(np.linalg.slogdet(Sy)[1]))
+    raise KeyError(ctor)
+
+
+def mk_cond(kind, M, b, Sy, u_rows=None, ctor="Sigma"):
     """Linear conditional of the given kind.  Returns (obj, call_kwargs, (M,b,Sy) as
     effectively realised, per component).  identity kinds ignore M,b (M=I,b=0).
-    nncontrol: R of the result = number of control rows."""
+    nncontrol: R of the result = number of control rows.
+    ctor: which constructor arguments are used: 'Sigma' | 'Lambda' | 'all' (Sigma+Lambda+ln_det_Sigma) | 'b_none' (b omitted = 0)."""
     R = len(Sy)
-    if kind == "full":
-        return conditional.ConditionalGaussianPDF(M=J(M), b=J(b), Sigma=J(Sy)), {}, (M, b, Sy)
-    if kind == "diag":
-        return conditional.ConditionalGaussianDiagPDF(M=J(M), b=J(b), Sigma=J(Sy)), {}, (M, b, Sy)
+    if kind in ("full", "diag"):
+        cls = conditional.ConditionalGaussianPDF if kind == "full" else conditional.ConditionalGaussianDiagPDF
+        if ctor == "b_none":
+            b = np.zeros_like(b)
+            return cls(M=J(M), **_noise_kw(Sy, ctor)), {}, (M, b, Sy)
+        return cls(M=J(M), b=J(b), **_noise_kw(Sy, ctor)), {}, (M, b, Sy)
     if kind in ("identity", "identity_diag"):
         Dy = Sy.shape[1]
         cls = conditional.ConditionalIdentityGaussianPDF if kind == "identity" else conditional.ConditionalIdentityDiagGaussianPDF
         Mi = np.tile(np.eye(Dy)[None], (R, 1, 1))
-        return cls(Sigma=J(Sy)), {}, (Mi, np.zeros((R, Dy)), Sy)
+        return cls(**_noise_kw(Sy, ctor)), {}, (Mi, np.zeros((R, Dy)), Sy)
     if kind == "nncontrol":
         # control function: affine in u so that row r of u reproduces (M[r], b[r]).
         Ru, Dy, Dx = M.shape
